@@ -443,6 +443,10 @@ theorem apply_owner (st st' : State) (c : Ctx) (op : Op) (evs : List Event)
     simp only [apply] at h
     obtain ⟨ho, rfl, _⟩ := transferOwnership_ok h
     exact ⟨n, rfl, ho, rfl⟩
+  | upgradeMigrate =>
+    left
+    cases (apply_upgradeMigrate_ok _ _ _ h).1
+    rfl
 
 end Tk
 
